@@ -103,6 +103,10 @@ fn make_stream(r: &mut Rng, lzip: bool, units: usize, tiny: bool) -> (Vec<u8>, V
 pub fn run_case(ctx: &Ctx, idx: u64) -> Vec<CaseOut> {
     let mut r = ctx.rng(idx);
     let tiny = ctx.is("miri");
+    // every 9th random case: a worker failure racing with a coordinator that is busy dispatching
+    if idx >= STEER && idx % 9 == 4 || idx == STEER {
+        return fail_race_case(ctx, idx, &mut r, tiny);
+    }
     let which = if idx < STEER { idx % 4 } else { r.below(4) };
     match which {
         0 => reader_case(ctx, idx, &mut r, false, tiny),
@@ -110,6 +114,58 @@ pub fn run_case(ctx: &Ctx, idx: u64) -> Vec<CaseOut> {
         2 => writer_case(ctx, idx, &mut r, false, tiny),
         _ => writer_case(ctx, idx, &mut r, true, tiny),
     }
+}
+
+/// A worker fails at once (the stream's first chunk is a stored chunk without the dictionary reset a
+/// first chunk needs) while the coordinator stays busy for a long time cutting thousands of one-byte
+/// units and polling the shared error state between them: the failure has to reach the caller however
+/// the worker's report and the coordinator's polls interleave. Repeated several times per case.
+fn fail_race_case(ctx: &Ctx, idx: u64, r: &mut Rng, tiny: bool) -> Vec<CaseOut> {
+    let _ = (ctx, idx);
+    let rname = "LZMA2ReaderMT";
+    let tail = if tiny { 120 } else { 40_000 };
+    let trials = if tiny { 2 } else { 10 };
+    let mut out = Vec::new();
+    let mut held = 0u64;
+    for t in 0..trials {
+        let mut bytes = vec![0x02, 0x00, 0x00, r.next_u32() as u8, 0x01, 0x00, 0x00, r.next_u32() as u8];
+        for _ in 0..tail {
+            bytes.extend_from_slice(&[if r.chance(1, 50) { 0x01 } else { 0x02 }, 0x00, 0x00, r.next_u32() as u8]);
+        }
+        bytes.push(0x00);
+        let workers = *r.pick(&[1u32, 2, 2, 3, 4, 16]);
+        let sched = if t % 2 == 0 { mt::no_sched(); String::from("none") } else { mt::random_sched(r) };
+        let cell = format!("{rname}|worker-failure-during-dispatch|w{workers}");
+        let desc = format!("{rname} workers={workers}: chunk 0 = stored chunk without dictionary reset (its worker fails at once), then {tail} one-byte stored chunks; trial {t} sched=[{sched}]");
+        stat_add("fault_worker-failure-during-dispatch", 1);
+        let b2 = bytes.clone();
+        let g = mt::guarded(3000, 90_000, move || {
+            let src = FaultyRead::new(unsafe_static(&b2), ReadPlan::default());
+            let mut rd = LZMA2ReaderMT::new(src, 4096, None, workers);
+            let d = drain(&mut rd, &[65536], 1 << 24, 4);
+            drop(rd);
+            drop(b2);
+            d
+        });
+        mt::no_sched();
+        stat_add("mt_runs", 1);
+        match g {
+            Guarded::Stuck(w) => {
+                out.push(CaseOut::viol(cell, format!("never-returns {rname} worker-failure-during-dispatch"), w, desc));
+                break;
+            }
+            Guarded::Timeout => out.push(CaseOut::skip(cell, "watchdog without stuck predicate (inconclusive)", desc)),
+            Guarded::Panicked(p) => out.push(CaseOut::viol(cell, format!("panic {rname} worker-failure-during-dispatch @{}", p.site()), p.short_msg(), desc)),
+            Guarded::Done(d) => match drain_result(&d) {
+                Ok(v) => out.push(CaseOut::viol(cell, format!("reports-success {rname} worker-failure-during-dispatch"), format!("Ok with {} bytes although the first chunk is invalid", v.len()), desc)),
+                Err(_) => held += 1,
+            },
+        }
+    }
+    if held > 0 {
+        out.push(CaseOut::held(format!("{rname}|worker-failure-during-dispatch"), true, format!("{held} trials: the worker failure reached the caller as Err")).times(held));
+    }
+    out
 }
 
 fn reader_case(ctx: &Ctx, idx: u64, r: &mut Rng, lzip: bool, tiny: bool) -> Vec<CaseOut> {
